@@ -1,0 +1,288 @@
+//go:build verif
+
+package dhcpv4
+
+// Contracts for the DHCPv4 message builders (property C15 of /verif). Compiled only with the build tag "verif"; adds
+// declarations and comments, changes nothing in the package.
+//
+// Structure of the argument:
+//   - every modifier closure of modifiers.go (WithReply$1, WithOptionCopied$1, ...) has an effect contract over the packet
+//     it is applied to, verified against its body;
+//   - the interface methods the closures go through (OptionCode.Code, OptionValue.ToBytes) have contracts by dynamic
+//     type, and each implementing method is verified to refine them (obligation kind "refine");
+//   - each exported builder is verified with the bodies of New, newDHCPv4 and PrependModifiers executed in place
+//     (clause "inlines"; the modifier loop of newDHCPv4 is unrolled, with an unwinding obligation) and with every call
+//     through a Modifier value dispatched on the closures the builder created: their contracts, not their bodies, give
+//     the effect;
+//   - a Modifier value that is none of the library's closures is a caller-supplied one: "contract type Modifier" is the
+//     most adversarial one for the ordering claim - it overwrites every header field and the whole option map with values
+//     that depend only on the function value. A builder called with one such modifier must return exactly what that
+//     modifier left behind, so nothing the builder does can come after it.
+
+// ---------- interface methods by dynamic type ----------
+
+//@ contract OptionCode.Code
+//@   ensures[std] typeIs(self, optionCode) ==> int(result) == int(self.(optionCode))
+//@   ensures[generic] typeIs(self, GenericOptionCode) ==> int(result) == int(self.(GenericOptionCode))
+
+//@ contract (optionCode).Code
+//@   ensures int(result) == int(o)
+
+//@ contract (GenericOptionCode).Code
+//@   ensures int(result) == int(o)
+
+//@ contract OptionValue.ToBytes
+//@   ensures[generic] typeIs(self, OptionGeneric) ==> result == self.(OptionGeneric).Data
+//@   ensures[msgtype] typeIs(self, MessageType) ==> len(result) == 1 && int(result[0]) == int(self.(MessageType)) && fresh(result)
+//@   ensures[ip] typeIs(self, IP) && len(self.(IP)) == 4 ==> string(result) == string(self.(IP))
+
+//@ contract (OptionGeneric).ToBytes
+//@   ensures result == o.Data
+
+//@ contract (MessageType).ToBytes
+//@   ensures len(result) == 1 && int(result[0]) == int(m) && fresh(result)
+
+//@ contract (IP).ToBytes
+//@   ensures len(i) == 4 ==> string(result) == string(i)
+
+// ---------- modifier closures ----------
+
+//@ define hdrSame(d) = d.OpCode == old(d.OpCode) && d.HWType == old(d.HWType) && d.HopCount == old(d.HopCount) && string(d.TransactionID[:]) == old(string(d.TransactionID[:])) && d.NumSeconds == old(d.NumSeconds) && d.Flags == old(d.Flags) && d.ServerHostName == old(d.ServerHostName) && d.BootFileName == old(d.BootFileName)
+
+//@ contract WithReply$1
+//@   requires d != nil && request != nil && ref(d) != ref(request)
+//@   modifies &d.OpCode, &d.HWType, &d.TransactionID, &d.ClientHWAddr, &d.Flags
+//@   ensures[opcode] (int(request.OpCode) == 1 ==> int(d.OpCode) == 2) && (int(request.OpCode) != 1 ==> int(d.OpCode) == 1)
+//@   ensures[copied] d.HWType == request.HWType && string(d.TransactionID[:]) == string(request.TransactionID[:]) && d.ClientHWAddr == request.ClientHWAddr && d.Flags == request.Flags
+//@   ensures[request-unchanged] unchanged(request)
+
+//@ contract WithGatewayIP$1
+//@   requires d != nil
+//@   modifies &d.GatewayIPAddr
+//@   ensures d.GatewayIPAddr == ip
+
+//@ contract WithClientIP$1
+//@   requires d != nil
+//@   modifies &d.ClientIPAddr
+//@   ensures d.ClientIPAddr == ip
+
+//@ contract WithHwAddr$1
+//@   requires d != nil
+//@   modifies &d.ClientHWAddr
+//@   ensures d.ClientHWAddr == hwaddr
+
+//@ contract WithBroadcast$1
+//@   requires d != nil
+//@   modifies &d.Flags
+//@   ensures[bit] broadcast ==> int(d.Flags) >= 32768
+//@   ensures[bit-clear] !broadcast ==> int(d.Flags) < 32768
+//@   ensures[rest] int(d.Flags) % 32768 == int(old(d.Flags)) % 32768
+
+// the numeric code of an option code value: both code types of the library are a uint8 in an interface
+//@ define codeOf(x) = ite(typeIs(x, optionCode), int(x.(optionCode)), int(x.(GenericOptionCode)))
+//@ define isCode(x) = x != nil && (typeIs(x, optionCode) || typeIs(x, GenericOptionCode))
+
+// every option of o other than code c is what it was at entry
+//@ define optsSameExcept(o, c) = forall k uint8 :: {mapdom(o, k)} {mapval(o, k)} int(k) != c ==> has(o, k) == old(has(o, k)) && o[k] == old(o[k])
+//@ define optsSame(o) = forall k uint8 :: {mapdom(o, k)} {mapval(o, k)} has(o, k) == old(has(o, k)) && o[k] == old(o[k])
+
+//@ contract (Options).Get
+//@   requires isCode(code)
+//@   ensures result == o[uint8(codeOf(code))]
+
+//@ contract (Options).Update
+//@   requires o != nil && isCode(option.Code) && option.Value != nil
+//@   modifies o
+//@   ensures[set] has(o, uint8(codeOf(option.Code)))
+//@   ensures[generic] typeIs(option.Value, OptionGeneric) ==> o[uint8(codeOf(option.Code))] == option.Value.(OptionGeneric).Data
+//@   ensures[msgtype] typeIs(option.Value, MessageType) ==> len(o[uint8(codeOf(option.Code))]) == 1 && int(o[uint8(codeOf(option.Code))][0]) == int(option.Value.(MessageType)) && fresh(o[uint8(codeOf(option.Code))])
+//@   ensures[ip] typeIs(option.Value, IP) && len(option.Value.(IP)) == 4 ==> string(o[uint8(codeOf(option.Code))]) == string(option.Value.(IP))
+//@   ensures[others] optsSameExcept(o, codeOf(option.Code))
+
+//@ contract (*DHCPv4).UpdateOption
+//@   requires d != nil && d.Options != nil && isCode(opt.Code) && opt.Value != nil
+//@   modifies d.Options
+//@   ensures[set] has(d.Options, uint8(codeOf(opt.Code)))
+//@   ensures[generic] typeIs(opt.Value, OptionGeneric) ==> d.Options[uint8(codeOf(opt.Code))] == opt.Value.(OptionGeneric).Data
+//@   ensures[msgtype] typeIs(opt.Value, MessageType) ==> len(d.Options[uint8(codeOf(opt.Code))]) == 1 && int(d.Options[uint8(codeOf(opt.Code))][0]) == int(opt.Value.(MessageType)) && fresh(d.Options[uint8(codeOf(opt.Code))])
+//@   ensures[ip] typeIs(opt.Value, IP) && len(opt.Value.(IP)) == 4 ==> string(d.Options[uint8(codeOf(opt.Code))]) == string(opt.Value.(IP))
+//@   ensures[others] optsSameExcept(d.Options, codeOf(opt.Code))
+
+// WithOptionCopied: the option is copied byte for byte (the very same value) when the request has it with a non-nil
+// value; otherwise the packet is left alone
+//@ contract WithOptionCopied$1
+//@   requires d != nil && request != nil && ref(d) != ref(request) && d.Options != nil && ref(d.Options) != ref(request.Options) && isCode(opt)
+//@   modifies d.Options
+//@   let c = codeOf(opt)
+//@   let v = request.Options[uint8(codeOf(opt))]
+//@   ensures[copied] v != nil ==> has(d.Options, uint8(c)) && d.Options[uint8(c)] == v
+//@   ensures[others] optsSameExcept(d.Options, c)
+//@   ensures[absent] v == nil ==> optsSame(d.Options)
+
+//@ contract WithOption$1
+//@   requires d != nil && d.Options != nil && isCode(opt.Code) && opt.Value != nil
+//@   modifies d.Options
+//@   ensures[set] has(d.Options, uint8(codeOf(opt.Code)))
+//@   ensures[generic] typeIs(opt.Value, OptionGeneric) ==> d.Options[uint8(codeOf(opt.Code))] == opt.Value.(OptionGeneric).Data
+//@   ensures[msgtype] typeIs(opt.Value, MessageType) ==> len(d.Options[uint8(codeOf(opt.Code))]) == 1 && int(d.Options[uint8(codeOf(opt.Code))][0]) == int(opt.Value.(MessageType)) && fresh(d.Options[uint8(codeOf(opt.Code))])
+//@   ensures[ip] typeIs(opt.Value, IP) && len(opt.Value.(IP)) == 4 ==> string(d.Options[uint8(codeOf(opt.Code))]) == string(opt.Value.(IP))
+//@   ensures[others] optsSameExcept(d.Options, codeOf(opt.Code))
+
+// ---------- caller-supplied modifiers ----------
+
+// What a caller-supplied modifier writes: arbitrary but fixed values (abstract functions; nothing but their ranges is
+// known). The modifier of "contract type Modifier" overwrites every header field and every option with them.
+//@ contract userByte
+//@   trusted
+//@   ensures 0 <= result && result <= 255
+func userByte(i int) int { return 0 }
+
+//@ contract userWord
+//@   trusted
+//@   ensures 0 <= result && result <= 65535
+func userWord(i int) int { return 0 }
+
+//@ contract userStr
+//@   trusted
+func userStr(i int) string { return "" }
+
+//@ contract userHas
+//@   trusted
+func userHas(k uint8) bool { return false }
+
+//@ contract userVal
+//@   trusted
+func userVal(k uint8) string { return "" }
+
+//@ define userWrote(d) = int(d.OpCode) == userByte(0) && int(d.HWType) == userWord(1) && int(d.HopCount) == userByte(2) && string(d.TransactionID[:]) == userStr(3) && int(d.NumSeconds) == userWord(4) && int(d.Flags) == userWord(5) && string(d.ClientIPAddr) == userStr(6) && string(d.YourIPAddr) == userStr(7) && string(d.ServerIPAddr) == userStr(8) && string(d.GatewayIPAddr) == userStr(9) && string(d.ClientHWAddr) == userStr(10) && d.ServerHostName == userStr(11) && d.BootFileName == userStr(12) && d.Options != nil && (forall k uint8 :: {mapdom(d.Options, k)} {mapval(d.Options, k)} has(d.Options, k) == userHas(k) && string(d.Options[k]) == userVal(k))
+
+//@ contract type Modifier
+//@   requires d != nil
+//@   modifies d, d.Options
+//@   ensures[overwrites] len(userStr(3)) == 4 ==> userWrote(d)
+
+// ---------- builders ----------
+
+// the random transaction id: any value; the random source and the context machinery behind it touch nothing of the
+// library's data (environment assumption)
+//@ contract GenerateTransactionID
+//@   trusted
+
+// NewReplyFromRequest: opposite opcode; transaction id, hardware type and address, flags and gateway address of the
+// request; options 82 and 61 echoed byte for byte (the same value) when the request carries them, absent otherwise;
+// with one caller-supplied modifier: the result is exactly what that modifier wrote (it ran last).
+//@ contract NewReplyFromRequest
+//@   inlines New, newDHCPv4 unroll 6, PrependModifiers
+//@   requires request != nil && len(modifiers) <= 1 && (forall i int :: {modifiers[i]} 0 <= i && i < len(modifiers) ==> modifiers[i] != nil)
+//@   ensures[new] err == nil ==> result != nil && fresh(result)
+//@   ensures[new-options] err == nil && len(modifiers) == 0 ==> result.Options != nil && fresh(result.Options)
+//@   ensures[opcode] err == nil && len(modifiers) == 0 ==> (int(request.OpCode) == 1 ==> int(result.OpCode) == 2) && (int(request.OpCode) != 1 ==> int(result.OpCode) == 1)
+//@   ensures[correlation] err == nil && len(modifiers) == 0 ==> string(result.TransactionID[:]) == string(request.TransactionID[:]) && result.HWType == request.HWType && result.ClientHWAddr == request.ClientHWAddr && result.Flags == request.Flags && result.GatewayIPAddr == request.GatewayIPAddr
+//@   ensures[echo-82] err == nil && len(modifiers) == 0 ==> (request.Options[82] != nil ==> has(result.Options, 82) && result.Options[82] == request.Options[82]) && (request.Options[82] == nil ==> !has(result.Options, 82))
+//@   ensures[echo-61] err == nil && len(modifiers) == 0 ==> (request.Options[61] != nil ==> has(result.Options, 61) && result.Options[61] == request.Options[61]) && (request.Options[61] == nil ==> !has(result.Options, 61))
+//@   ensures[nothing-else] err == nil && len(modifiers) == 0 ==> (forall k uint8 :: {mapdom(result.Options, k)} k != 82 && k != 61 ==> !has(result.Options, k))
+//@   ensures[request-unchanged] unchanged(request) && unchanged(request.Options)
+//@   ensures[modifiers-last] err == nil && len(modifiers) == 1 && len(userStr(3)) == 4 ==> userWrote(result)
+
+// WithRequestedOptions: the parameter request list (option 55) is present afterwards; every other option is untouched
+//@ contract WithRequestedOptions$1
+//@   requires d != nil && d.Options != nil
+//@   modifies d.Options
+//@   ensures[set] has(d.Options, 55)
+//@   ensures[others] optsSameExcept(d.Options, 55)
+
+//@ define defaultsOnly(err, modifiers) = err == nil && len(modifiers) == 0
+//@ define modsOK(modifiers) = len(modifiers) <= 1 && (forall i int :: {modifiers[i]} 0 <= i && i < len(modifiers) ==> modifiers[i] != nil)
+//@ define replyOf(result, p) = ((int(p.OpCode) == 1 ==> int(result.OpCode) == 2) && (int(p.OpCode) != 1 ==> int(result.OpCode) == 1)) && string(result.TransactionID[:]) == string(p.TransactionID[:]) && result.HWType == p.HWType && result.ClientHWAddr == p.ClientHWAddr && result.Flags == p.Flags
+//@ define msgType(result, t) = has(result.Options, 53) && len(result.Options[53]) == 1 && int(result.Options[53][0]) == t
+
+// NewRequestFromOffer (RFC 2131 4.3.2, SELECTING): answers the offer (opcode flipped, same xid, hardware type and address,
+// flags), DHCPREQUEST, ciaddr of the offer, requested address = the offered address, server identifier = the offer's
+// (the very value) when it has one, parameter request list present.
+//@ contract NewRequestFromOffer
+//@   inlines New, newDHCPv4 unroll 8, PrependModifiers, WithMessageType, WithOption, OptMessageType, OptRequestedIPAddress
+//@   requires offer != nil && modsOK(modifiers)
+//@   ensures[new] err == nil ==> result != nil && fresh(result)
+//@   ensures[correlation] defaultsOnly(err, modifiers) ==> replyOf(result, offer) && result.ClientIPAddr == offer.ClientIPAddr
+//@   ensures[type] defaultsOnly(err, modifiers) ==> msgType(result, 3)
+//@   ensures[requested-address] defaultsOnly(err, modifiers) && len(offer.YourIPAddr) == 4 ==> has(result.Options, 50) && string(result.Options[50]) == string(offer.YourIPAddr)
+//@   ensures[server-id] defaultsOnly(err, modifiers) ==> (offer.Options[54] != nil ==> has(result.Options, 54) && result.Options[54] == offer.Options[54]) && (offer.Options[54] == nil ==> !has(result.Options, 54))
+//@   ensures[prl] defaultsOnly(err, modifiers) ==> has(result.Options, 55)
+//@   ensures[nothing-else] defaultsOnly(err, modifiers) ==> (forall k uint8 :: {mapdom(result.Options, k)} k != 50 && k != 53 && k != 54 && k != 55 ==> !has(result.Options, k))
+//@   ensures[offer-unchanged] unchanged(offer) && unchanged(offer.Options)
+//@   ensures[modifiers-last] err == nil && len(modifiers) == 1 && len(userStr(3)) == 4 ==> userWrote(result)
+
+// NewRenewFromAck (RFC 2131 4.3.2, RENEWING): DHCPREQUEST with ciaddr = the leased address, unicast, no requested-address
+// and no server-identifier option, parameter request list present.
+//@ contract NewRenewFromAck
+//@   inlines New, newDHCPv4 unroll 7, PrependModifiers, WithMessageType, WithOption, OptMessageType
+//@   requires ack != nil && modsOK(modifiers)
+//@   ensures[new] err == nil ==> result != nil && fresh(result)
+//@   ensures[correlation] defaultsOnly(err, modifiers) ==> ((int(ack.OpCode) == 1 ==> int(result.OpCode) == 2) && (int(ack.OpCode) != 1 ==> int(result.OpCode) == 1)) && string(result.TransactionID[:]) == string(ack.TransactionID[:]) && result.HWType == ack.HWType && result.ClientHWAddr == ack.ClientHWAddr
+//@   ensures[ciaddr] defaultsOnly(err, modifiers) ==> result.ClientIPAddr == ack.YourIPAddr
+//@   ensures[unicast] defaultsOnly(err, modifiers) ==> int(result.Flags) < 32768 && int(result.Flags) == int(ack.Flags) % 32768
+//@   ensures[type] defaultsOnly(err, modifiers) ==> msgType(result, 3)
+//@   ensures[no-50-54] defaultsOnly(err, modifiers) ==> !has(result.Options, 50) && !has(result.Options, 54) && has(result.Options, 55)
+//@   ensures[nothing-else] defaultsOnly(err, modifiers) ==> (forall k uint8 :: {mapdom(result.Options, k)} k != 53 && k != 55 ==> !has(result.Options, k))
+//@   ensures[ack-unchanged] unchanged(ack) && unchanged(ack.Options)
+//@   ensures[modifiers-last] err == nil && len(modifiers) == 1 && len(userStr(3)) == 4 ==> userWrote(result)
+
+// NewReleaseFromACK (RFC 2131 4.4.4): DHCPRELEASE, a BOOTREQUEST, ciaddr = the leased address, the lease's hardware
+// address, unicast, server identifier of the ACK (the very value) when it has one.
+//@ contract NewReleaseFromACK
+//@   inlines New, newDHCPv4 unroll 7, PrependModifiers, WithMessageType, WithOption, OptMessageType
+//@   requires ack != nil && modsOK(modifiers)
+//@   ensures[new] err == nil ==> result != nil && fresh(result)
+//@   ensures[header] defaultsOnly(err, modifiers) ==> int(result.OpCode) == 1 && result.ClientIPAddr == ack.YourIPAddr && result.ClientHWAddr == ack.ClientHWAddr && int(result.Flags) < 32768
+//@   ensures[type] defaultsOnly(err, modifiers) ==> msgType(result, 7)
+//@   ensures[server-id] defaultsOnly(err, modifiers) ==> (ack.Options[54] != nil ==> has(result.Options, 54) && result.Options[54] == ack.Options[54]) && (ack.Options[54] == nil ==> !has(result.Options, 54))
+//@   ensures[nothing-else] defaultsOnly(err, modifiers) ==> (forall k uint8 :: {mapdom(result.Options, k)} k != 53 && k != 54 ==> !has(result.Options, k))
+//@   ensures[ack-unchanged] unchanged(ack) && unchanged(ack.Options)
+//@   ensures[modifiers-last] err == nil && len(modifiers) == 1 && len(userStr(3)) == 4 ==> userWrote(result)
+
+// NewInform (RFC 2131 4.4.3): DHCPINFORM, a BOOTREQUEST with the given hardware address and ciaddr = the local address.
+//@ contract NewInform
+//@   inlines New, newDHCPv4 unroll 5, PrependModifiers, WithMessageType, WithOption, OptMessageType
+//@   requires modsOK(modifiers)
+//@   ensures[new] err == nil ==> result != nil && fresh(result)
+//@   ensures[header] defaultsOnly(err, modifiers) ==> int(result.OpCode) == 1 && result.ClientIPAddr == localIP && result.ClientHWAddr == hwaddr && int(result.Flags) == 0
+//@   ensures[type] defaultsOnly(err, modifiers) ==> msgType(result, 8)
+//@   ensures[nothing-else] defaultsOnly(err, modifiers) ==> (forall k uint8 :: {mapdom(result.Options, k)} k != 53 ==> !has(result.Options, k))
+//@   ensures[modifiers-last] err == nil && len(modifiers) == 1 && len(userStr(3)) == 4 ==> userWrote(result)
+
+// NewDiscovery (RFC 2131 4.4.1): DHCPDISCOVER, a BOOTREQUEST with the given hardware address and a parameter request list.
+//@ contract NewDiscovery
+//@   inlines New, newDHCPv4 unroll 5, PrependModifiers, WithMessageType, WithOption, OptMessageType
+//@   requires modsOK(modifiers)
+//@   ensures[new] err == nil ==> result != nil && fresh(result)
+//@   ensures[header] defaultsOnly(err, modifiers) ==> int(result.OpCode) == 1 && result.ClientHWAddr == hwaddr && int(result.Flags) == 0
+//@   ensures[type] defaultsOnly(err, modifiers) ==> msgType(result, 1)
+//@   ensures[prl] defaultsOnly(err, modifiers) ==> has(result.Options, 55)
+//@   ensures[nothing-else] defaultsOnly(err, modifiers) ==> (forall k uint8 :: {mapdom(result.Options, k)} k != 53 && k != 55 ==> !has(result.Options, k))
+//@   ensures[modifiers-last] err == nil && len(modifiers) == 1 && len(userStr(3)) == 4 ==> userWrote(result)
+
+// the remaining field setters of modifiers.go
+//@ contract WithTransactionID$1
+//@   requires d != nil && ref(d) != ref(&xid)
+//@   modifies &d.TransactionID
+//@   ensures string(d.TransactionID[:]) == string(xid[:])
+
+//@ contract WithYourIP$1
+//@   requires d != nil
+//@   modifies &d.YourIPAddr
+//@   ensures d.YourIPAddr == ip
+
+//@ contract WithServerIP$1
+//@   requires d != nil
+//@   modifies &d.ServerIPAddr
+//@   ensures d.ServerIPAddr == ip
+
+//@ contract WithHWType$1
+//@   requires d != nil
+//@   modifies &d.HWType
+//@   ensures d.HWType == hwt
+
+//@ contract WithRelay$1
+//@   requires d != nil
+//@   modifies &d.Flags, &d.GatewayIPAddr, &d.HopCount
+//@   ensures int(d.Flags) < 32768 && int(d.Flags) % 32768 == int(old(d.Flags)) % 32768 && d.GatewayIPAddr == ip && int(d.HopCount) == (int(old(d.HopCount)) + 1) % 256
